@@ -432,6 +432,30 @@ def check_edit(case, acc=None):
                 break
     if not out:
         out.extend(probe_created_children(v, msg, site, kind, newdt, level))
+    if not out and site['level'] == 'field' and kind in ('datatype', 'forbid', 'max1', 'max2') and case['pick'] % 2 == 0:
+        # the segments that hold the edited field are now replaced by copies of the segments of a twin message built WITHOUT
+        # the profile (message.<segment> = other.<segment>): the copies belong to the profile's message and follow the profile
+        try:
+            twin = build(v, m, tree, lines, 'api', level, None)
+            mine, theirs = parents_of(msg, site), parents_of(twin, site)
+            done = 0
+            if len(mine) == len(theirs):
+                for a, b in zip(mine, theirs):
+                    pa, pb = a.parent, b.parent
+                    if pa is None or pb is None or len([c for c in pa.children if c.name == a.name]) != 1 or \
+                            len([c for c in pb.children if c.name == b.name]) != 1:
+                        continue
+                    before = pa.to_er7()
+                    setattr(pa, a.name, getattr(pb, b.name))
+                    if pa.to_er7() != before:
+                        break               # (the twin differs in content: nothing to say)
+                    done += 1
+            if done:
+                case['_copied'] = done
+                more = probe_created_children(v, msg, site, kind, newdt, level)
+                out.extend([(sig + ':after-copy-from-a-message-without-the-profile', d) for sig, d in more])
+        except Exception as e:
+            out.append(('C18-copy-probe-raises:%s' % type(e).__name__, '%s: %s' % (desc, _exc(e))))
     return out
 
 
